@@ -80,7 +80,10 @@ func (h *connIDManager) add(f *wire.NewConnectionIDFrame) error {
 	}
 	// If the NEW_CONNECTION_ID frame is reordered, such that its sequence number is smaller than the currently active
 	// connection ID or if it was already retired, send the RETIRE_CONNECTION_ID frame immediately.
-	if f.SequenceNumber < max(h.activeSequenceNumber, h.highestProbingID) || f.SequenceNumber < h.highestRetired {
+	// A duplicate of a connection ID that is still in use (as the active connection ID or for path probing)
+	// must not be reported as retired.
+	inUse := f.SequenceNumber == h.activeSequenceNumber || h.isUsedForPathProbing(f.SequenceNumber)
+	if !inUse && (f.SequenceNumber < max(h.activeSequenceNumber, h.highestProbingID) || f.SequenceNumber < h.highestRetired) {
 		h.queueControlFrame(&wire.RetireConnectionIDFrame{
 			SequenceNumber: f.SequenceNumber,
 		})
@@ -113,7 +116,7 @@ func (h *connIDManager) add(f *wire.NewConnectionIDFrame) error {
 		h.highestRetired = f.RetirePriorTo
 	}
 
-	if f.SequenceNumber == h.activeSequenceNumber {
+	if inUse {
 		return nil
 	}
 
@@ -127,6 +130,15 @@ func (h *connIDManager) add(f *wire.NewConnectionIDFrame) error {
 		h.updateConnectionID()
 	}
 	return nil
+}
+
+func (h *connIDManager) isUsedForPathProbing(seq uint64) bool {
+	for _, entry := range h.pathProbing {
+		if entry.SequenceNumber == seq {
+			return true
+		}
+	}
+	return false
 }
 
 func (h *connIDManager) addConnectionID(seq uint64, connID protocol.ConnectionID, resetToken protocol.StatelessResetToken) error {
